@@ -208,8 +208,14 @@ def main():
         if v["kind"] == "static":
             evs, raw, ev = [], "", []
         else:
-            evs, raw = native_replay(pkg, [case])
-            ev = evs[0] if evs else []
+            tries = 4 if run.get("sched") else 1
+            for _ in range(tries):
+                evs, raw = native_replay(pkg, [case])
+                ev = evs[0] if evs else []
+                if v["kind"] == "assert" and ("A:%s:0" % vid) in ev:
+                    break
+                if v["kind"] == "panic" and any(e.startswith("P:") for e in ev):
+                    break
         if v["kind"] == "static":
             ok = True  # deterministic scan of the source: re-running the scan is the replay
         elif v["kind"] == "assert":
@@ -266,7 +272,12 @@ def main():
         evs, raw = native_replay(pkg, cases)
         for i, (run, s) in enumerate(lst):
             nat = comparable(evs[i]) if i < len(evs) else None
-            if nat is not None and nat == comparable(s["events"]):
+            same = nat is not None and nat == comparable(s["events"])
+            if not same and nat is not None and run.get("sched"):
+                # harness with goroutines the native scheduler orders freely: the event
+                # sequence may differ, the verdict may not (no failed assertion, no panic)
+                same = not any(e.endswith(":0") for e in nat) and not any(e.startswith(("P:", "X:run-timeout")) for e in evs[i])
+            if same:
                 validated += 1
                 if len(samples_out) < 4:
                     samples_out.append({"harness": pkg + "." + run["fn"], "params": run.get("params", {}),
